@@ -249,7 +249,7 @@ def _set_context(n, st, fn):
 def rule_determinism(res, mods):
     res.rule("R-DETERMINISM", "every use of a set-typed value in the generators (and in mjcf_schema.py) is order-free "
              "(membership, algebra, len/sorted/any/all, set comprehension, commutative fold, diagnostics); no hash/id/"
-             "time/random/environment/directory-listing reads", floor=45)
+             "time/random/environment/directory-listing reads", floor=70)
     nuses = 0
     for mod in mods + [P.model().mod]:
         st = _settypes(mod)
@@ -266,8 +266,8 @@ def rule_determinism(res, mods):
                 if isinstance(n, ast.Attribute):
                     t = P.text(n)
                     root = t.split(".")[0]
-                    if (t in NONDET_ATTRS or (root in NONDET_MODULES and mod.imports.get(root, "").split(".")[0] in NONDET_MODULES)) \
-                            and not isinstance(n._parent, ast.Attribute):
+                    if t in NONDET_ATTRS or (root in NONDET_MODULES and mod.imports.get(root, "").split(".")[0] in NONDET_MODULES
+                                             and not isinstance(n._parent, ast.Attribute)):
                         main_only = fn is not None and fn.qual == "main"
                         if t == "sys.argv" and (main_only or fn is None):
                             continue
@@ -339,6 +339,26 @@ def _param_subject(name, fn, sm):
     return vals, vocab
 
 
+def _possible(subject, node, fn, vocab, know=None):
+    """Values of `<var>.<field>` that can reach node: facts in fn, intersected (when var is a parameter that is
+    not re-bound) with what the callers can pass."""
+    k = know or P.know_at(node, fn)
+    vals = set(k.values(subject, vocab))
+    var, field = subject.rsplit(".", 1)
+    if var in fn.params and var not in P.stores_of(fn):
+        sites = P._sites(fn)
+        if sites:
+            outer = set()
+            for caller, call in sites:
+                a = P.bind_args(call, fn).get(var)
+                if isinstance(a, ast.Name):
+                    outer |= P.know_at(call, caller).values(f"{a.id}.{field}", vocab)
+                else:
+                    outer |= set(vocab)
+            vals &= outer
+    return vals
+
+
 def rule_exhaust(res, mods):
     sm = P.model()
     res.rule("R-EXHAUST", "every dispatch over attribute type / cardinality / constraint kind (dict lookup keyed by it, "
@@ -363,7 +383,7 @@ def rule_exhaust(res, mods):
                 vals = vocab = None
                 if isinstance(s, ast.Attribute) and isinstance(s.value, ast.Name) and s.attr in ("type", "kind", "card"):
                     vocab = sm.vocab_of_field(None, s.attr)
-                    vals = P.know_at(n, fn).values(P.text(s), vocab)
+                    vals = _possible(P.text(s), n, fn, vocab)
                 elif isinstance(s, ast.Name):
                     r = _param_subject(s.id, fn, sm)
                     if r:
@@ -407,7 +427,7 @@ def rule_exhaust(res, mods):
                 k = P.know_at(cur, fn)
                 k.add(P.neg(k.forms.mk(cur.test)))
                 k.propagate()
-                rest = sorted(k.values(sname, vocab))
+                rest = sorted(_possible(sname, cur, fn, vocab, k))
                 if rest:
                     res.bad("R-EXHAUST", construct, f, n.lineno,
                             f"if/elif chain over `{sname}` has no else and does not handle {rest}")
@@ -430,8 +450,7 @@ def rule_exhaust(res, mods):
                     vocab = arms[0][1][sname]
                     construct = f"{mod.name}.{fn.qual}:return-chain[{sname}]"
                     last = fn.node.body[-1]
-                    k = P.know_at(last, fn)
-                    rest = sorted(k.values(sname, vocab))
+                    rest = sorted(_possible(sname, last, fn, vocab))
                     residuals[construct] = rest
                     if isinstance(last, (ast.Return, ast.Raise)) and (isinstance(last, ast.Raise) or last.value is not None):
                         res.ok("R-EXHAUST", construct, {"file": f, "line": arms[0][0].lineno, "arms": len(arms),
@@ -448,7 +467,7 @@ def rule_exhaust(res, mods):
 def rule_member(res, mods):
     sm = P.model()
     res.rule("R-EXHAUST-MEMBER", "an attribute read from a member of a Group/Element (a union of Attr, Use, Child, Const, "
-             "Constraint) is declared by every class the member can have at that point (isinstance-narrowed)", floor=5)
+             "Constraint) is declared by every class the member can have at that point (isinstance-narrowed)", floor=3)
     for mod in mods:
         f = _file(mod)
         for fn in mod.funcs.values():
@@ -502,7 +521,7 @@ def rule_guar(res, mods):
     guar = P.validator_guarantees()
     res.rule("R-ASSUME-GUAR", "every lookup schema.enums/groups/elements[key] in a generator uses a key that is a key of that "
              "table, a field the validator checked for every declaration (under the same type condition), or is dominated "
-             "by a membership test; generators only see schemas returned by parse_file/parse_string", floor=16)
+             "by a membership test; generators only see schemas returned by parse_file/parse_string", floor=18)
     res.extra["validator_guarantees"] = [f"{g['cls']}.{g['field']} in {g['table']}" +
                                          (f" when type in {sorted(g['types'])}" if g["types"] else "") for g in guar]
     literals = {}
